@@ -43,7 +43,10 @@ TBackendRecv == /\ Is("BackendRecv")
                 \* request, otherwise between 1 and the number of active requests (sampling and logging of
                 \* concurrent attempts are not one atomic step)
                 /\ LET active == {r \in Reqs : rq[r].phase # "done"} IN
-                   IF Cardinality(active) = 1 THEN gauge'[E.e] = E.gs
+                   IF Cardinality(active) = 1
+                   \* ... and nothing is in flight to anybody else: an endpoint this request has left behind
+                   \* (refused, failed over) no longer counts it
+                   THEN gauge'[E.e] = E.gs /\ ("go" \in DOMAIN E => E.go = FoldSet(LAMBDA x, acc : acc + gauge'[x], 0, EP \ {E.e}))
                    ELSE E.gs >= 1 /\ E.gs <= Cardinality(active)
                 /\ Consume
 TClientDone == Is("ClientDone") /\ ClientDone(E.r, E) /\ Consume
@@ -85,6 +88,18 @@ TSilent == /\ \/ \E r \in Reqs : AttemptEnd(r)
               \/ \E r \in Reqs : \E e \in EP : AttemptPanics(r, e)
            /\ Silent
 
+(* Known finding KF-C19-5 (only if listed): a success status the client walked away from mid-stream is booked as *)
+(* a SUCCESS of the endpoint (both engines exempt context.Canceled from the failure branch).                      *)
+KF_C19_5 == /\ "KF-C19-5" \in KnownDeviations
+            /\ \E r \in Reqs :
+                 /\ rq[r].phase = "attempting" /\ rq[r].kind \in Abandoned /\ rq[r].pst < 400
+                 /\ LET e == rq[r].cur IN
+                    /\ gauge' = [gauge EXCEPT ![e] = @ - 1]
+                    /\ rq' = [rq EXCEPT ![r] = [@ EXCEPT !.phase = "aborted", !.started = TRUE]]
+                    /\ EBRecord(e, TRUE) /\ cnt' = [cnt EXCEPT ![e].ok = @ + 1]
+            /\ UNCHANGED <<engine, status, down, boom, models>>
+            /\ Silent /\ UseDeviation("KF-C19-5")
+
 (* Known finding KF-C19-2 (only if listed): an attempt that panics inside olla is counted in the gauge and   *)
 (* released again, but is never booked in the endpoint's request counters (neither success nor failure).     *)
 KF_C19_2 == /\ "KF-C19-2" \in KnownDeviations
@@ -98,7 +113,7 @@ KF_C19_2 == /\ "KF-C19-2" \in KnownDeviations
             /\ Silent /\ UseDeviation("KF-C19-2")
 
 TraceInit == Init /\ l = 1
-TraceNext == TReset \/ THealth \/ TRepo \/ TDown \/ TBoom \/ TClientSend \/ TBackendRecv \/ TClientDone \/ TStats \/ TSilent \/ KF_C19_2
+TraceNext == TReset \/ THealth \/ TRepo \/ TDown \/ TBoom \/ TClientSend \/ TBackendRecv \/ TClientDone \/ TStats \/ TSilent \/ KF_C19_2 \/ KF_C19_5
 TraceSpec == TraceInit /\ [][TraceNext]_tvars
 HW == HWMark(l)
 =============================================================================
